@@ -144,6 +144,21 @@ CLAIMED["C14"] = {
     "design": "5 C14",
 }
 
+CLAIMED["C05"] = {
+    "text": "Arith.tla states integral promotion, the usual arithmetic conversions, the result class of every operator (comparison -> "
+            "bool, shift -> promoted left operand, compound assignment and ++/-- -> left operand type, in place), which operations C++ "
+            "does not define on floating operands, and the trap predicate (integer / and % by zero, MIN / -1 in the working type); TLC "
+            "checks the table laws and exports every (operator, left kind, right kind, left value class, right value class) cell; the "
+            "driver checks the table against decltype, evaluates every cell in the real engine by up to four routes (runtime node, "
+            "operator as function, right-constant fold, constant fold) and compares result class, value and the left operand after "
+            "in-place operators with native C++ arithmetic on the same types; a crash (SIGFPE) is an observation.",
+    "note": "Values are computed natively, not by TLC (32-bit integers, no floats); cells whose C++ result is undefined without "
+            "trapping (signed overflow, over-wide shifts, out-of-range float->int) are excluded as the property says; long and long long "
+            "are one class (same width and signedness).",
+    "technique": "TLA+ typing/trap table checked by TLC and against the compiler + exhaustive cell replay against native arithmetic",
+    "design": "5 C05",
+}
+
 PENDING_REASON = "check not built yet in this session; planned (see DESIGN.md section 8)"
 
 ALL = [f"C{i:02d}" for i in range(1, 21)]
